@@ -443,9 +443,64 @@ fn do_case(case: Vec<i128>) {
     }
 }
 
+/// Chunk lengths of 2^32 and more (the array type is never instantiated): a slice shorter than N has no
+/// chunk and is all remainder.  Direct oracle (case kind 9: [9, log-ish tag of N, ty, L, mutable]).
+#[cfg(target_pointer_width = "64")]
+fn huge_one<T: Elem, N: ArrayLength>(tag: i128, ty: i128, l: usize, mutable: bool) {
+    emit_case(&[9, tag, ty, l as i128, mutable as i128]);
+    let mut buf: Vec<T> = (0..l).map(|i| T::mk(i as u8 + 1)).collect();
+    let base = buf.as_ptr() as usize;
+    let r = catch(move || {
+        if mutable {
+            let (c, r) = GenericArray::<T, N>::chunks_from_slice_mut(&mut buf);
+            (c.len(), r.len(), r.as_ptr() as usize)
+        } else {
+            let (c, r) = GenericArray::<T, N>::chunks_from_slice(&buf);
+            (c.len(), r.len(), r.as_ptr() as usize)
+        }
+    });
+    match r {
+        Ok((nc, nr, rp)) => {
+            emit_obs(&[0, nc as i128, nr as i128]);
+            if nc != 0 || nr != l || (l > 0 && size_of::<T>() > 0 && rp != base) {
+                emit_oracle(&format!("N = {} (tag {}), a slice of {} elements: {} chunks and a remainder of {} elements", N::U64, tag, l, nc, nr));
+            }
+        }
+        Err(m) => {
+            emit_obs(&[1]);
+            emit_oracle(&format!("N = {} (tag {}), a slice of {} elements: panicked ({})", N::U64, tag, l, m));
+        }
+    }
+}
+
+#[cfg(target_pointer_width = "64")]
+fn huge_all() {
+    type A = U4294967296; // 2^32
+    type B = U8589934592; // 2^33
+    type C = Sum<U4294967296, U3>; // 2^32 + 3
+    for l in [0usize, 1, 5, 9] {
+        for mutable in [false, true] {
+            dist("huge_N");
+            huge_one::<u8, A>(32, 0, l, mutable);
+            huge_one::<u8, B>(33, 0, l, mutable);
+            huge_one::<u8, C>(3203, 0, l, mutable);
+            huge_one::<u32, A>(32, 1, l, mutable);
+            huge_one::<u32, C>(3203, 1, l, mutable);
+            huge_one::<(), C>(3203, 2, l, mutable);
+        }
+    }
+}
+#[cfg(not(target_pointer_width = "64"))]
+fn huge_all() {}
+
 fn main() {
     let a = args();
     quiet_panics();
+    if a.extra.iter().any(|x| x == "--huge") {
+        huge_all();
+        flush_dist();
+        return;
+    }
     if let Some(c) = a.replay {
         do_case(c);
         return;
